@@ -553,6 +553,66 @@ pub fn with_contradictions(rng: &mut Rng, mut sys: System) -> System {
     sys
 }
 
+/// Mild conflicts between levels: a planted system with priorities in which some pinned values are
+/// off by a small amount, so that the least-squares compromise of a later level pulls earlier
+/// levels slightly out of satisfaction (mixed satisfied / unsatisfied patterns across levels).
+pub fn with_mild_conflicts(rng: &mut Rng, sys: System) -> System {
+    let mut sys = with_priorities(rng, sys);
+    let n = sys.guesses.len();
+    if n == 0 {
+        return sys;
+    }
+    let k = rng.range(2, 8);
+    let xs = sys.planted.clone().unwrap_or_else(|| sys.guesses.iter().map(|g| g.1).collect());
+    for _ in 0..k {
+        let id = rng.below(n) as u32;
+        let off = sys.scale * *rng.pick(&[3e-5, 2e-4, 1e-3, 1e-2, 5e-2]) * if rng.chance(1, 2) { 1.0 } else { -1.0 };
+        let prio = *rng.pick(&[0u32, 0, 1, 2]);
+        sys.reqs.push(ConstraintRequest::new(Constraint::Fixed(id, xs[id as usize] + off), prio));
+    }
+    let mut reqs = sys.reqs.clone();
+    rng.shuffle(&mut reqs);
+    sys.reqs = reqs;
+    sys.planted = None;
+    sys.class = "conflict";
+    sys
+}
+
+/// Scale disparity across levels: every coordinate pinned by a `Fixed` at the highest priority (a
+/// few of them slightly off), and at lower priorities constraints whose error measure scales with the
+/// size of the geometry (long lines, large radii).  The least-squares compromise of the lower level
+/// then satisfies the large-gradient constraints and leaves the pinned values off by more than the
+/// satisfaction tolerance: verdicts differ between levels of one attempted subset.
+pub fn gen_disparity(rng: &mut Rng) -> System {
+    let scale = *rng.pick(&[100.0, 300.0, 1000.0]);
+    let mut pl = Planted::new(scale);
+    let shapes = ["LinesAtAngleParallel", "LinesAtAnglePerpendicular", "Arc", "VerticalPointLineDistance", "LinesEqualLength", "Distance", "Midpoint"];
+    let n = rng.range(1, 3);
+    for _ in 0..n {
+        let shape = *rng.pick(&shapes);
+        pl.add(rng, shape);
+    }
+    let mut reqs: Vec<ConstraintRequest> = Vec::new();
+    let nbad = rng.range(1, 3);
+    let bad: Vec<usize> = (0..nbad).map(|_| rng.below(pl.xs.len())).collect();
+    for (id, v) in pl.xs.iter().enumerate() {
+        let off = if bad.contains(&id) {
+            *rng.pick(&[1e-3, 5e-3, 2e-2, 5e-2]) * if rng.chance(1, 2) { 1.0 } else { -1.0 }
+        } else {
+            0.0
+        };
+        reqs.push(ConstraintRequest::new(Constraint::Fixed(id as u32, v + off), 0));
+    }
+    for c in &pl.cons {
+        reqs.push(ConstraintRequest::new(*c, *rng.pick(&[1u32, 1, 2])));
+    }
+    rng.shuffle(&mut reqs);
+    let guesses: Vec<(u32, f64)> = pl.xs.iter().enumerate().map(|(i, v)| (i as u32, v + 1e-3 * rng.sym())).collect();
+    let mut s = System::default_cfg(reqs, guesses, "disparity");
+    s.scale = scale;
+    s
+}
+
 /// Arbitrary well-typed input: random kinds, aliased / out-of-range ids, special floats, odd configs.
 pub fn gen_malformed(rng: &mut Rng) -> System {
     use crate::gen_sys::*;
